@@ -4,5 +4,9 @@ typedef signed char int8_t; typedef unsigned char uint8_t; typedef short int16_t
 typedef int int32_t; typedef unsigned int uint32_t; typedef long int64_t; typedef unsigned long uint64_t;
 typedef long intptr_t; typedef unsigned long uintptr_t;
 #define UINT64_C(x) x##UL
+#define UINT64_MAX 18446744073709551615UL
+#define INT64_MAX 9223372036854775807L
+#define UINT32_MAX 4294967295U
+#define INT32_MAX 2147483647
 #define INT64_C(x) x##L
 #endif
